@@ -140,14 +140,28 @@ REQUIRED_COUNTERS = [
 ]
 
 
+def _func_body(src, name):
+    m = re.search(r"func (?:\([^)]*\) )?%s\(.*?\n}\n" % re.escape(name), src, flags=re.S)
+    return m.group(0) if m else ""
+
+
 def reset_end(ctx):
-    """Tie 1: the end index the failure path of ShiftCacheSlot passes to Remove(slot.Id, 0, .)."""
+    """Tie 1: the end index the failure path of ShiftCacheSlot passes to `Remove(<id>, 0, .)` with the result
+    discarded (`_ =`). Looked for in ShiftCacheSlot and in the unexported helpers of cache.go it calls (one level),
+    whatever the receiver / id expression is called, so that extracting the reset into a helper or renaming a local
+    does not break the tie; anything else (no such call, two different values) fails closed."""
     src = open(os.path.join(core.REPO, "runner/ollamarunner/cache.go")).read()
-    m = re.search(r"func \(c \*InputCache\) ShiftCacheSlot\(.*?\n}\n", src, flags=re.S)
-    body = m.group(0) if m else ""
-    calls = re.findall(r"_\s*=\s*c\.cache\.Remove\(\s*slot\.Id\s*,\s*0\s*,\s*([^)]+?)\s*\)", body)
+    body = _func_body(src, "ShiftCacheSlot")
+    bodies = [body]
+    for callee in sorted(set(re.findall(r"\b(?:\w+\.)?([a-z]\w*)\(", body))):
+        b = _func_body(src, callee)
+        if b and b != body:
+            bodies.append(b)
+    calls = []
+    for b in bodies:
+        calls += re.findall(r"_\s*=\s*\w+(?:\.\w+)*\.Remove\(\s*[\w.]+\s*,\s*0\s*,\s*([^)]+?)\s*\)", b)
     val = None
-    if len(calls) == 1:
+    if len(set(calls)) == 1:
         a = calls[0]
         if a == "math.MaxInt32":
             val = MAXI32
